@@ -29,6 +29,9 @@ CLAIMED = {
  "C16": func("byte/hex/array/word/limb/serde/fmt encodings of Uint (1..8,16,32 limbs), Int, Limb and BoxedUint against the positional definition with asymmetric contents; hostile hex (every byte value 0x00..0xff at every position, multi-byte UTF-8, wrong lengths) with documented panic / none exactly for malformed input; BoxedUint byte decoders for every bits_precision 0..=520 x every length 0..=cap+9 with values just below / at / above 2^precision (InputSize / Precision errors exactly as documented); primitive, concat/split, resize, widen/shorten conversions.", "DESIGN.md §4 C16"),
  "C17": func("to_string_radix_vartime / from_str_radix_vartime / from_str_radix_with_precision_vartime / num_traits::Num::from_str_radix for every radix 2..=36 on Uint (1,2,3,4,8,16,40 limbs) and BoxedUint (1..=140 limbs, across the 32-limb recursion and the 128-limb buffer): canonical lowercase output against BigUint, exact parse of plain and decorated numerals, numerals at and above 2^BITS must yield the size/precision error (never a wrapped value), non-numerals (empty, lone '+', misplaced underscores, digits >= radix, arbitrary bytes) the empty/invalid-digit error, never a panic; parsed boxed values must be usable (bits, re-format).", "DESIGN.md §4 C17"),
  "C18": func("DER (U64..U8192: to_der, encode_to_slice, encoded_len, from_der, TryFrom<AnyRef>, TryFrom<UintRef>) and RLP (U64..U256: encode, RlpStream::append, decode, Rlp::as_val) against my own strict canonical codecs: encodings must be byte-identical to the canonical one; for arbitrary byte strings (boundary lengths around the capacity, leading 0x00/0x7f/0x80/0xff, wrong tags, truncated / overlong / non-minimal / indefinite length fields, mutations of valid encodings) the decoder must return Ok(v) exactly for the canonical encoding of a fitting v and an error otherwise, never panic.", "DESIGN.md §4 C18"),
+ "C19": ("instrumented-RNG monitors: scripted adversarial / exact-cycle / failing streams and ChaCha streams; range, error, lock-step (fixed vs boxed value and consumption), exact-cycle uniformity and Bernstein-bounded statistical uniformity (1e-12 total false-alarm budget)",
+         "Exploration: random_mod / try_random_mod on Limb, Uint (1,2,3,4,8 limbs) and BoxedUint for moduli with top limb 1, 2^j, 2^j+-1, MAX and low limbs 0/MAX: value < m, fixed == boxed with identical RNG call logs; exact-cycle streams (every masked top-word value once) must yield every value of [0,m) exactly once for all moduli <= 512 and boundary moduli < 2^16; statistical per-bucket bounds for small moduli and 64 coarse buckets for multi-limb moduli; random_bits for every bit_length 0..=BITS+2 under ChaCha, all-ones and all-zero streams (value < 2^k, == 2^k-1 under all ones, documented platform-independent byte consumption, errors exactly for bit_length > BITS / precision mismatch) and per-bit frequencies; Random for Limb/Uint/Int/NonZero/Odd/ConstMontyForm under zero-prefix and failing streams.",
+         "DESIGN.md §5 C19", "Trusted base: ChaCha8 from rand_chacha as the uniform stream; the Bernstein inequality for the statistical bound (per-test delta 1e-18, < 1e6 tests per run); the exact-cycle experiment assumes the sampler reads one word per single-limb candidate, which the call log verifies. Statistical power is about 2% per bucket at 10^6 draws; smaller biases on ChaCha streams are invisible, the exact-cycle test covers the acceptance rule itself."),
 }
 
 checks = []
